@@ -1,4 +1,142 @@
-/- Driver for C18 (stub: not built yet). -/
+/-
+Driver for C18 (time-series files).  Import-free apart from the model.
+
+Strings travel percent-encoded (one token, no spaces): printable ASCII passes through except
+`% , ; | ~ !`; other characters are `%XX` (code point < 256) or `%uXXXXXX`.  `~` = empty string,
+`~~` = empty list; lists are `,`-separated, lists of lists `;`-separated.
+
+  rt <name> <ts> <uni> <eq> <sl> <slstr> <commentLines> <classLabel> <values> <panel>
+        → w=<text|E:..> p=<result|->          (write, then parse what was written)
+  ts <text> | arff <T/F> <text> | tsv <text>  → <result>
+  fmt <ts> <arff> <tsv|~~>                    → ts=<result> arff=<result> tsv=<result|->
+  load <train> <test>                         → train=<result> test=<result> none=<result>
+result = ok!<ndims>!<N | L labels>!<dims '|' instances ';' values ','>  or  E:<kind>
+-/
+import SkVerif.Model.TsFile
+import SkVerif.Drv.Parse
 namespace SkVerif.Drv.C18
-def handle (_toks : List String) : String := "bad-op"
+open SkVerif SkVerif.TsFile SkVerif.Drv
+
+def hexDigit (n : Nat) : Char :=
+  if n < 10 then Char.ofNat (48 + n) else Char.ofNat (87 + n)
+
+def hexVal (c : Char) : Option Nat :=
+  if '0' ≤ c ∧ c ≤ '9' then some (c.toNat - 48)
+  else if 'a' ≤ c ∧ c ≤ 'f' then some (c.toNat - 87)
+  else if 'A' ≤ c ∧ c ≤ 'F' then some (c.toNat - 55)
+  else none
+
+def hexN (n width : Nat) : List Char :=
+  (List.range width).reverse.map (fun i => hexDigit ((n / 16 ^ i) % 16))
+
+def plain (c : Char) : Bool :=
+  33 ≤ c.toNat ∧ c.toNat ≤ 126 ∧ c ≠ '%' ∧ c ≠ ',' ∧ c ≠ ';' ∧ c ≠ '|' ∧ c ≠ '~' ∧ c ≠ '!'
+
+def encChars : List Char → List Char → List Char
+  | [], acc => acc.reverse
+  | c :: cs, acc =>
+    if plain c then encChars cs (c :: acc)
+    else if c.toNat < 256 then encChars cs ((hexN c.toNat 2).reverse ++ '%' :: acc)
+    else encChars cs ((hexN c.toNat 6).reverse ++ 'u' :: '%' :: acc)
+
+def enc (s : Str) : String :=
+  if s.isEmpty then "~" else String.ofList (encChars s [])
+
+def hexNum (cs : List Char) : Option Nat :=
+  cs.foldlM (fun acc c => (hexVal c).map (fun v => acc * 16 + v)) 0
+
+def decChars : List Char → List Char → Option (List Char)
+  | [], acc => some acc.reverse
+  | '%' :: 'u' :: a :: b :: c :: d :: e :: f :: rest, acc =>
+    match hexNum [a, b, c, d, e, f] with
+    | some n => decChars rest (Char.ofNat n :: acc)
+    | none => none
+  | '%' :: a :: b :: rest, acc =>
+    match hexNum [a, b] with
+    | some n => decChars rest (Char.ofNat n :: acc)
+    | none => none
+  | '%' :: _, _ => none
+  | c :: rest, acc => decChars rest (c :: acc)
+
+def dec (s : String) : Option Str :=
+  if s == "~" then some [] else decChars s.toList []
+
+def decList (s : String) : Option (List Str) :=
+  if s == "~~" then some [] else (s.splitOn ",").mapM dec
+
+def decPanel (s : String) : Option (List (List Str)) :=
+  if s == "~~" then some [] else (s.splitOn ";").mapM decList
+
+def showErr : Err → String
+  | .parse => "E:other:TsFileParseException"
+  | .value => "E:value"
+  | .type => "E:type"
+  | .index => "E:index"
+  | .unsupported => "E:unsupported"
+
+def showNum : Num → String
+  | .fin q => showRat q
+  | .nan => "nan"
+  | .inf neg => if neg then "-inf" else "inf"
+
+def showSeries (s : Series) : String :=
+  if s.isEmpty then "~" else ",".intercalate (s.map showNum)
+
+def showDim (d : List Series) : String :=
+  if d.isEmpty then "~~" else ";".intercalate (d.map showSeries)
+
+def showLabels : Option (List Str) → String
+  | none => "N"
+  | some l => "L" ++ (if l.isEmpty then "~~" else ",".intercalate (l.map enc))
+
+def showPanel (p : Panel) : String :=
+  s!"ok!{p.dims.length}!{showLabels p.labels}!{"|".intercalate (p.dims.map showDim)}"
+
+def showRes : Except Err Panel → String
+  | .ok p => showPanel p
+  | .error e => showErr e
+
+def handle (toks : List String) : String :=
+  match toks with
+  | ["rt", name, ts, uni, eq, sl, slstr, com, cl, vals, panel] =>
+    match dec name, parseBool? ts, parseBool? uni, parseBool? eq, parseInt? sl, dec slstr,
+          decList com, decList cl, decList vals, decPanel panel with
+    | some name, some ts, some uni, some eq, some sl, some slstr, some com, some cl, some vals, some panel =>
+      let o : WOpts := { problemName := name, timestamp := ts, univariate := uni, classLabel := cl,
+                         equalLength := eq, seriesLength := sl, seriesLengthStr := slstr, commentLines := com }
+      match write o panel vals with
+      | .error e => s!"w={showErr e} p=-"
+      | .ok text => s!"w={enc text} p={showRes (parseTs text)}"
+    | _, _, _, _, _, _, _, _, _, _ => "bad-op"
+  | ["ts", text] =>
+    match dec text with
+    | some t => showRes (parseTs t)
+    | none => "bad-op"
+  | ["arff", hl, text] =>
+    match parseBool? hl, dec text with
+    | some hl, some t => showRes (parseArff hl t)
+    | _, _ => "bad-op"
+  | ["tsv", text] =>
+    match dec text with
+    | some t => showRes (parseTsv t)
+    | none => "bad-op"
+  | ["fmt", ts, arff, tsv] =>
+    match dec ts, dec arff with
+    | some t, some a =>
+      if tsv == "~~" then s!"ts={showRes (parseTs t)} arff={showRes (parseArff true a)} tsv=-"
+      else match dec tsv with
+        | some v => s!"ts={showRes (parseTs t)} arff={showRes (parseArff true a)} tsv={showRes (parseTsv v)}"
+        | none => "bad-op"
+    | _, _ => "bad-op"
+  | ["load", tr, te] =>
+    match dec tr, dec te with
+    | some tr, some te =>
+      match parseTs tr, parseTs te with
+      | .ok a, .ok b =>
+        s!"train={showPanel (loadSplit .train a b)} test={showPanel (loadSplit .test a b)} none={showPanel (loadSplit .none a b)}"
+      | .error e, _ => s!"train={showErr e}"
+      | _, .error e => s!"test={showErr e}"
+    | _, _ => "bad-op"
+  | _ => "bad-op"
+
 end SkVerif.Drv.C18
